@@ -407,6 +407,12 @@ namespace OP2Utility::Archive
 				break;
 			}
 		}
+
+		// Every valid entry is named by position in the string table
+		if (packedFileCount > m_StringTable.size()) {
+			throw std::runtime_error("The string table of volume " + m_ArchiveFilename + " holds fewer names than the index table has valid entries");
+		}
+
 		m_Count = packedFileCount;
 	}
 
